@@ -1,0 +1,37 @@
+//go:build verif
+
+// Machine-checked contracts for this package (comment-only; compiled only under the
+// build tag `verif`, where it still contains no code). Checked by /verif/govc.
+package keeper
+
+// ---- C11: accounted balance = pool reserve + perpetual liabilities - perpetual custody -------------------
+//@ define accTotalOf(acc, d) := sumOver(acc.TotalTokens, c, ite(c.Denom == d, c.Amount, 0))
+//@ define accNonAmmOf(acc, d) := sumOver(acc.NonAmmPoolTokens, c, ite(c.Denom == d, c.Amount, 0))
+//@ define accLists(acc, d) := anyOf(acc.TotalTokens, c, c.Denom == d)
+//@ define accListsNonAmm(acc, d) := anyOf(acc.NonAmmPoolTokens, c, c.Denom == d)
+//@ define accHas(ctx, p) := has(ctx, "accountedpool:types.KeyPrefix/types.AccountedPoolKey", "AccountedPool/value/", p)
+//@ define accRow(ctx, p) := row(ctx, "accountedpool:types.KeyPrefix/types.AccountedPoolKey", "types.AccountedPool", "AccountedPool/value/", p)
+// What the perpetual pool owes to / holds from the liquidity pool in a denom (long and short sides).
+//@ define perpNet(pp, d) := sumOver(pp.PoolAssetsLong, a, ite(a.AssetDenom == d, a.Liabilities - a.Custody, 0)) + sumOver(pp.PoolAssetsShort, a, ite(a.AssetDenom == d, a.Liabilities - a.Custody, 0))
+//@ define uniqueCoinDenoms(cs) := allOf(cs, a, sumOver(cs, b, ite(b.Denom == a.Denom, 1, 0)) == 1)
+//@ define uniquePerpDenoms(as) := allOf(as, a, sumOver(as, b, ite(b.AssetDenom == a.AssetDenom, 1, 0)) == 1)
+
+// A stored accounted pool sits under its own pool id.
+//@ rowinv C11/accKey table accountedpool:types.KeyPrefix/types.AccountedPoolKey row types.AccountedPool : row.PoolId == key1
+
+// The hook computes the accounted balance of every listed denom from the two pool objects it is
+// handed: they must be the current ones.
+//@ func (Keeper).PerpetualUpdates
+//@ forall d Str
+//@ requires uniquePerpDenoms(perpetualPool.PoolAssetsLong) && uniquePerpDenoms(perpetualPool.PoolAssetsShort) && uniqueAssetDenoms(ammPool)
+//@ assumes accHas(ctx, ammPool.PoolId) ==> uniqueCoinDenoms(accRow(ctx, ammPool.PoolId).TotalTokens) && uniqueCoinDenoms(accRow(ctx, ammPool.PoolId).NonAmmPoolTokens)
+//@ ensures C11/total-is-reserve-plus-liabilities-minus-custody: err == nil && !EnableTakeProfitCustodyLiabilities && old(accLists(accRow(ctx, ammPool.PoolId), d)) ==> accTotalOf(accRow(ctx, ammPool.PoolId), d) == reserveOf(ammPool, d) + perpNet(perpetualPool, d)
+//@ ensures C11/non-pool-part-is-liabilities-minus-custody: err == nil && !EnableTakeProfitCustodyLiabilities && old(accLists(accRow(ctx, ammPool.PoolId), d)) && old(accListsNonAmm(accRow(ctx, ammPool.PoolId), d)) ==> accNonAmmOf(accRow(ctx, ammPool.PoolId), d) == perpNet(perpetualPool, d)
+
+// A liquidity-pool change refreshes the pool part and keeps the recorded perpetual part.
+//@ func (Keeper).UpdateAccountedPoolOnAmmChange
+//@ forall d Str
+//@ assumes accHas(ctx, ammPool.PoolId) ==> uniqueCoinDenoms(accRow(ctx, ammPool.PoolId).TotalTokens) && uniqueCoinDenoms(accRow(ctx, ammPool.PoolId).NonAmmPoolTokens)
+//@ assumes uniqueAssetDenoms(ammPool)
+//@ ensures C11/total-is-reserve-plus-recorded-perpetual-part: err == nil && accHas(ctx, ammPool.PoolId) && old(accLists(accRow(ctx, ammPool.PoolId), d)) && anyOf(ammPool.PoolAssets, a, a.Token.Denom == d) ==> accTotalOf(accRow(ctx, ammPool.PoolId), d) == reserveOf(ammPool, d) + old(accNonAmmOf(accRow(ctx, ammPool.PoolId), d))
+//@ ensures C11/perpetual-part-kept: err == nil ==> accNonAmmOf(accRow(ctx, ammPool.PoolId), d) == old(accNonAmmOf(accRow(ctx, ammPool.PoolId), d))
